@@ -141,6 +141,11 @@ let handle (fields : string list) : string =
     let s = { s_buf = []; s_rest = parse_chunks chunks } in
     let rs = read_all (S (stream_left s)) cfg N0 s in
     String.concat " " (List.map show_rres rs)
+  | ["freadc"; dname; key; chunks] ->
+    let cfg = { r_dialect = get_dialect dname; r_inkey = key_opt key } in
+    let s = { s_buf = []; s_rest = parse_chunks chunks } in
+    let rs = read_all_c (S (stream_left s)) cfg N0 s in
+    String.concat " " (List.map (fun (r, c) -> show_rres r ^ "/" ^ string_of_int (int_of_nat c)) rs)
   | ["winit"; ver; sys; comp; key] ->
     show_res string_of_n (writer_init (n_of_string ver) (n_of_string sys) (n_of_string comp) (b01 key))
   | ["swrite"; v2; sys; comp; link; key; dname; ops] ->
